@@ -48,8 +48,13 @@ func main() {
 	seed := flag.Uint64("seed", 1, "seed")
 	nmods := flag.Int("mods", 4, "number of module versions sampled (0 = all)")
 	nflags := flag.Int("flags", 3, "number of -go values per module besides 'module' (0 = all)")
+	cli := flag.String("cli", "", "path of a staticcheck binary: run the CLI tie instead of the probe grid")
 	flag.Parse()
 	rnd := hx.NewRand(*seed)
+	if *cli != "" {
+		runCLI(*cli, *work, rnd, *nmods, *nflags, *out)
+		return
+	}
 
 	lo, hi := 16, 26
 	var versions []int
